@@ -85,7 +85,7 @@ V("c04-append-prepends", ["C04"], "break", N, "Node.append_child", "before=None,
 V("c04-prepend-sibling-appends", ["C04"], "break", N, "Node.prepend_sibling", "before=self,", "before=None,", ["SHORTCUT"])
 V("c04-tree-add-drops-before", ["C04"], "break", T, "Tree.add_child", "            before=before,\n", "", ["KWARGS-FWD"])
 V("c04-typed-prepend-prefix", ["C04", "C15"], "break", TT, "TypedNode.prepend_child", "self.first_child(ANY_KIND)", "self.first_child()", ["CALL-BIND", "SHORTCUT"])
-V("c04-typed-append-sibling-prefix", ["C04", "C15"], "break", TT, "TypedNode.append_sibling", "self.next_sibling()", "self.next_sibling", ["UNCALLED", "SHORTCUT"])
+V("c04-typed-append-sibling-prefix", ["C04"], "break", TT, "TypedNode.append_sibling", "self.next_sibling()", "self.next_sibling", ["UNCALLED", "SHORTCUT"])
 V("c04-add-appends-at-front", ["C04"], "break", N, "Node.add_child", "            children.append(node)\n", "            children.insert(0, node)\n", ["SIB-ADD"])
 V("c04-setmeta-drops-others", ["C04"], "break", N, "Node.set_meta", "            self._meta[key] = value\n", "            self._meta = {key: value}\n", ["FRAME"])
 V("c04-updatemeta-alias", ["C04", "C07"], "break", N, "Node.update_meta", "values.copy()", "values", ["ALIAS-STORE", "FRAME"])
